@@ -33,10 +33,10 @@ is_reset = channel_common.is_reset
 PROFILE = {
     "C05": dict(mc=dict(quick=["mc_c05_quick_disc", "mc_c05_quick_fee"], thorough=["mc_c05_thorough"]),
                 gen=dict(MaxDisc=2, MaxAdds=4, MaxFees=3, MaxLen=100),
-                n=dict(quick=49, thorough=210), every=dict(quick=3, thorough=1)),
+                n=dict(quick=42, thorough=180), poor=dict(quick=10, thorough=40), every=dict(quick=3, thorough=1)),
     "C04": dict(mc=dict(quick=["mc_c05_quick_disc", "mc_c05_quick_fee"], thorough=["mc_c05_thorough"]),
                 gen=dict(MaxDisc=2, MaxAdds=4, MaxFees=3, MaxLen=100),
-                n=dict(quick=98, thorough=700)),
+                n=dict(quick=88, thorough=640), poor=dict(quick=15, thorough=80)),
 }
 
 
@@ -47,6 +47,8 @@ def model_and_behaviours(ck, prop):
     g = prof["gen"]
     files = ck.generate(SPEC, "ChannelGen", "ChannelGen.cfg", prof["n"][ck.tier], g["MaxLen"] + 10,
                         constants=dict(g), timeout=1500)
+    # uneven funding split: the non-opener's balance lies around the two dust limits
+    ck.cov["uneven_split_behaviours"] = channel_common.poor_batch(ck, files, g, prof["poor"][ck.tier])
     return files, g
 
 
@@ -204,7 +206,7 @@ def run(ck, extra_overlay=None):
                      ["lnwallet/channel_exec_test.go", "lnwallet/c05_close_test.go"],
                      env={"VERIF_SCHED": os.path.dirname(files[0]), "VERIF_TYPES": ALL_TYPES,
                           "VERIF_CLOSE_EVERY": every, "VERIF_THAW": 600},
-                     timeout=3000, extra_overlay=extra_overlay)
+                     timeout=3000, extra_overlay=dict(channel_common.fixture_overlay(ck), **(extra_overlay or {})))
     trace = os.path.join(res["dir"], "trace.ndjson")
     if not os.path.exists(trace) or os.path.getsize(trace) == 0:
         raise Inconclusive("executor produced no trace:\n" + res["out"][-3000:])
